@@ -142,8 +142,10 @@ class RemoteDBusObject :
         Called by the L{DBusObjectHandler} when the connection is lost
         """
         if self._disconnectCBs:
-            for cb in self._disconnectCBs:
-                cb(self, reason)
+            # a callback may unregister itself (or another one) while it runs
+            for cb in list(self._disconnectCBs):
+                if cb in self._disconnectCBs:
+                    cb(self, reason)
 
     def notifyOnSignal(self, signalName, callback, interface=None):
         """
